@@ -1215,7 +1215,45 @@ def generate_client(repo):
     return "\n".join(parts)
 
 
-GENERATORS = [("ClientSrc.lean", generate_client), ("IterDataSrc.lean", generate_iterdata), ("DdsSrc.lean", generate_dds), ("DasSrc.lean", generate_das), ("HlibSrc.lean", generate_hlib), ("ProjSrc.lean", generate_proj), ("SsfSrc.lean", generate_ssf), ("DmrSrc.lean", generate_dmr), ("LibSrc.lean", generate_lib), ("SliceSrc.lean", generate), ("DapSrc.lean", generate_dap), ("DodsSrc.lean", generate_dods),
+
+def generate_proxy(repo):
+    """handlers/dap.py `pad_hyperslab` and the projection text of `BaseProxyDap2.__getitem__` (C02's `openSlice` / `requestText`)"""
+    dap = parse_src(repo, "handlers", "dap.py")
+    COMBINED = "combine_slices(self.slice, fix_slice(index, self.shape))"
+
+    def pad():
+        return stmts(body_of(find_function(dap, "pad_hyperslab")), None, tail=True)
+
+    def request():
+        fn = find_method(dap, "BaseProxyDap2", "__getitem__")
+        body = body_of(fn)
+        if ast.unparse(body[0]) != "index = " + COMBINED:
+            raise Untranslatable("expected `index = %s` first" % COMBINED)
+        calls = [n for n in ast.walk(body[2]) if isinstance(n, ast.Call) and ast.unparse(n.func) == "urlunparse"] \
+            if len(body) > 2 else []
+        if len(calls) != 1 or len(calls[0].args) != 1 or not isinstance(calls[0].args[0], ast.Tuple) \
+                or len(calls[0].args[0].elts) != 6:
+            raise Untranslatable("expected `url = urlunparse((six parts))…` as the third statement")
+        table = {COMBINED: "@combined", "self.id": "self.id", "hyperslab(index)": "@hyperslab",
+                 "_quote(query)": "@quoted_query"}
+        with abstracting(table, str_vars={"self.id", "hyperslab(index)", "_quote(query)"},
+                         call_args={"hyperslab(index)": ["index"]}):
+            q = ast.Assign(targets=[ast.Name(id="@query", ctx=ast.Store())], value=calls[0].args[0].elts[4])
+            return "(.seq %s %s)" % (stmt(body[0], None), stmt(q, None))
+
+    parts = [HEADER,
+             block("src_pad_hyperslab", "handlers/dap.py pad_hyperslab: the whole body; `index` (a tuple of slices) and `shape` are "
+                   "the inputs, `return e` is `@ret = e`", pad),
+             block("src_proxy_request", "handlers/dap.py BaseProxyDap2.__getitem__: `index = combine_slices(self.slice, "
+                   "fix_slice(index, self.shape))` (the call is the input `@combined`) followed by the query part handed to "
+                   "`urlunparse` (`@query = self.id + hyperslab(index) + \"&\" + _quote(query)`); `@hyperslab` stands for "
+                   "`hyperslab(index)` (its argument is recorded as `@hyperslab.arg0`), `@quoted_query` for `_quote(query)`",
+                   request),
+             "end Pydap.Gen\n"]
+    return "\n".join(parts)
+
+
+GENERATORS = [("ProxySrc.lean", generate_proxy), ("ClientSrc.lean", generate_client), ("IterDataSrc.lean", generate_iterdata), ("DdsSrc.lean", generate_dds), ("DasSrc.lean", generate_das), ("HlibSrc.lean", generate_hlib), ("ProjSrc.lean", generate_proj), ("SsfSrc.lean", generate_ssf), ("DmrSrc.lean", generate_dmr), ("LibSrc.lean", generate_lib), ("SliceSrc.lean", generate), ("DapSrc.lean", generate_dap), ("DodsSrc.lean", generate_dods),
               ("AppSrc.lean", generate_app), ("CeSrc.lean", generate_ce)]
 
 
